@@ -49,7 +49,8 @@ def ep (s : String) : String := if s == "-" then "" else s
 def step' (s : Option St) (line : String) : Option St × String :=
   match words line with
   | "reset" :: rest =>
-    let cfg : Cfg := { versionless := kv rest "mode" == some "l", keep := kv rest "keep" == some "1" }
+    let cfg : Cfg := { versionless := kv rest "mode" == some "l", keep := kv rest "keep" == some "1",
+                       shut := kv rest "shut" == some "1" }
     (some { cfg := cfg, epoch := "" }, "ok")
   | ws =>
     match s with
@@ -59,7 +60,10 @@ def step' (s : Option St) (line : String) : Option St × String :=
         let (st', evs) := Keyed.step st op
         (some st', pre ++ render st' evs)
       match ws with
-      | ["sub", c, d] => go (.sub c (d == "delta=1"))
+      | ["sub", c, d] =>
+        match alookup c st.conns with
+        | some cn => if cn.subscribed then (s, s!"{c}[err:105] " ++ render st []) else go (.sub c (d == "delta=1"))
+        | none => go (.sub c (d == "delta=1"))
       | ["trk", c, k, v] =>
         match v.toNat?, alookup c st.conns with
         | some n, some cn => if cn.subscribed then go (.trk c k n) else (s, s!"{c}[err:103] " ++ render st [])
